@@ -250,7 +250,7 @@ def run(res, tier):
             return {'_magic': 'magic', '_sexID': 'sex', '_sendMessageIDCounter': 'mid', '_currentOutputBufferOffset': 'offset'}.get(a.get('n'), '?' + a.get('n'))
         if 'd' in a:
             e = local_def(h_, a['d'])
-            if e is not None and any((x.get('q') or '').endswith('muscleMin') for x in e.walk() if x.is_call()):
+            if e is not None and wrole_chunk(h_, a['d']):
                 return 'chunk'
             if e is not None and any((x.get('q') or '').endswith('ByteBuffer::GetNumBytes') for x in e.walk() if x.is_call()):
                 return 'total'
@@ -395,7 +395,10 @@ def run(res, tier):
 
 def wrole_chunk(w, d):
     e = local_def(w, d)
-    return e is not None and any((x.get('q') or '').endswith('muscleMin') for x in e.walk() if x.is_call())
+    if e is None:
+        return False
+    mm = A.min_max(e)            # muscleMin(a, b) or `(a < b) ? a : b` in any spelling
+    return (mm is not None and mm[0] == 'min') or any((x.get('q') or '').endswith('muscleMin') for x in e.walk() if x.is_call())
 
 
 def round3_rules(res, fx, fin, cd, reader):
